@@ -75,17 +75,19 @@ def judge(run, spec):
         V.append(("linearization-not-converged", "gama-local itself reports a failed linearization test after %d iteration(s) on error-free data" % info["iters"]))
     info["pvv"] = R.pvv
     dim = spec["dim"]
-    need = (["x", "y"] if dim >= 2 else []) + (["z"] if dim in (1, 3) else [])
+    need0 = (["x", "y"] if dim >= 2 else []) + (["z"] if dim in (1, 3) else [])
+    needs = spec.get("need") or {p: need0 for p in spec["new"]}
     adj = {}
     missing = []
     for pid in spec["new"]:
         a = R.adjusted.get(pid)
+        need = needs[pid]
         if a is None or any(k not in a for k in need):
             missing.append(pid); continue
         adj[pid] = tuple(a.get(k, 0.0) for k in ("x", "y", "z"))
     if missing:
         V.append(("removed-point", "new point(s) %s lack adjusted coordinates %s (adjusted: %s)" % (
-            missing, need, {k: sorted(c for c in v if c != "id") for k, v in R.adjusted.items()})))
+            missing, [needs[p] for p in missing], {k: sorted(c for c in v if c != "id") for k, v in R.adjusted.items()})))
     for pid in spec["fix"]:
         if pid not in R.fixed:
             V.append(("removed-point", "fixed point %s not listed as fixed" % pid))
@@ -110,7 +112,7 @@ def judge(run, spec):
     for pid, a in adj.items():
         t = spec["truth"][pid]
         for i, k in enumerate(("x", "y", "z")):
-            if k in need:
+            if k in needs[pid]:
                 d = abs(a[i] - t[i])
                 if d > worst: worst = d; wp = "%s.%s" % (pid, k)
     info["cerr"] = worst
@@ -157,7 +159,7 @@ VNAME = {"E": "exact", "P": "perturbed", "O": "omitted"}
 def make_spec(unit, mask, variant):
     ih = state_ih(unit, mask)
     spec = {"dim": unit.dim, "new": unit.new, "fix": unit.fix,
-            "truth": {p: unit.C[p] for p in unit.new},
+            "truth": {p: unit.C[p] for p in unit.new}, "need": unit.need,
             "exp_obs": [list(e[:4]) for e in N.expected_obs(unit, mask)],
             "ctol": CTOL, "rtol_lin": RTOL, "rtol_ang": RTOL, "ih": ih}
     if ih and variant[0] != "E":
@@ -171,13 +173,17 @@ def make_spec(unit, mask, variant):
 
 
 def variants_of(unit, mask, tier):
-    """[(variant, [zero rotations])] of a determined state, and the number of
-    omitted subsets that the closure model does not resolve (not run)"""
+    """[(variant, [(zero rotation, cluster order)])] of a determined state, and
+    the number of omitted subsets that the closure model does not resolve (not
+    run).  Omitted variants see every order of the cluster groups in the file;
+    exact / perturbed ones rotate through the orders."""
     nz = 5 if N.has_directions(unit, mask) else 1
+    no = len(N.group_orders(unit, mask))
     allz = list(range(nz))
-    out = [(("E",), allz)]
+    out = [(("E",), [(z, z % no) for z in allz] if nz >= no else [(0, o) for o in range(no)])]
     for pi, signs in enumerate(itertools.product((1, -1), repeat=len(unit.unk))):
-        out.append((("P", signs), allz if tier == "thorough" else [pi % nz]))
+        zs = allz if tier == "thorough" else [pi % nz]
+        out.append((("P", signs), [(z, (pi + z) % no) for z in zs]))
     skipped = 0
     G = unit.groups
     oi = 0
@@ -187,7 +193,8 @@ def variants_of(unit, mask, tier):
             ok, rules = N.resolvable(unit, mask, om)
             if ok:
                 full = (k == len(G))
-                out.append((("O", tuple(sorted(om)), rules), allz if (tier == "thorough" or full) else [oi % nz]))
+                zs = allz if (tier == "thorough" or full) else [oi % nz]
+                out.append((("O", tuple(sorted(om)), rules), [(z, o) for o in range(no) for z in zs]))
                 oi += 1
             else:
                 skipped += 1
@@ -235,7 +242,7 @@ def work(item):
                 spec = make_spec(unit, mask, variant)
                 rules = variant[2] if variant[0] == "O" else "-"
                 for zr in zrots:
-                    net = N.build_net(unit, mask, variant, zr)
+                    net = N.build_net(unit, mask, variant, zr[0], zr[1])
                     gkf = gnet.to_gkf(net)
                     for alg in algs_for(tier, cnt):
                         cnt += 1
@@ -307,7 +314,7 @@ def collect(ck, uk, res, pending):
             ck.sample("%s mask=%d obs=[%s] runs=%d smin=%.2f" % (unit.key(), mask, " ".join(N.cand_str(c) for c in unit.chosen(mask)), rec["runs"], rec["smin"]))
         for v in rec["viol"]:
             sig = sig_of(unit, mask, v)
-            where = "%s mask=%d obs=[%s] approx=%s zero-rotation=%d alg=%s" % (
+            where = "%s mask=%d obs=[%s] approx=%s zero-rotation,cluster-order=%s alg=%s" % (
                 unit.key(), mask, " ".join(N.cand_str(c) for c in unit.chosen(mask)), v["variant"], v["zrot"], v["alg"])
             if sig not in SIGS: SIGS[sig] = [0, None]
             SIGS[sig][0] += 1
@@ -420,7 +427,9 @@ RULE = ("tier %(tier)s: templates x placements = %(units)s; for every template i
         "observation list are classified by the reference (Jacobian rank with margin); every determined subset is a state and is run "
         "with approximate coordinates exact / every +-3cm sign pattern / omitted for every subset of coordinate groups (xy, z per new "
         "point) that the closure model resolves, station circles turned through the 5-value zero menu (rotated over the stations; "
-        "quick: all 5 rotations for exact and all-omitted, one rotating for the others), algorithms: quick all 4, thorough envelope + one "
+        "quick: all 5 rotations for exact and all-omitted, one rotating for the others), every order of the cluster groups (station clusters, "
+        "height-differences, vectors, coordinates) in the input file for the omitted variants (rotating for exact / perturbed), azimuth first / last / "
+        "absent in its station cluster (template azi3d), algorithms: quick all 4, thorough envelope + one "
         "rotating; oracle per run: exit 0, no removed point/observation, no outlying term, no failed linearization test, adjusted = true "
         "within 1e-6 m, |adj-obs| < 1e-3 mm/cc; per lattice edge s -> s+o: same adjusted coordinates (1e-8 m with exact approximations, "
         "the sum of the two state bounds otherwise). "
